@@ -414,6 +414,14 @@ class Interp(object):
                 if prop is not None:
                     fn, mod, cls = prop
                     return self.call_funcdef(fn, mod, cls, obj, [], {}, None, '%s.%s' % (cls, name))
+                # a name-mangled private attribute (_Cls__x) that is neither a field of the modelled object nor a method of its class: state the
+                # contract's pre-state does not describe (e.g. an attribute introduced by a change) - undecided, not a crash or a guess
+                pre = '_%s__' % c.cls.lstrip('_')
+                if name.startswith(pre) and fr is not None and getattr(fr, 'mod', None) is not None:
+                    short = '__' + name[len(pre):]
+                    if self.find_method(c.cls, short, fr, soft=True) is None and self.find_method(c.cls, name, fr, soft=True) is None \
+                            and ('%s.%s' % (c.cls, short)) not in self.registry:
+                        raise Undecided('attribute %s of %s is not part of the modelled pre-state' % (short, c.cls))
                 return BoundMethod(obj, name)
             return BoundMethod(obj, name)
         if isinstance(obj, source.ClassInfo):
